@@ -141,8 +141,8 @@ func vgWellFormedPath(p string) bool {
 //     the call fails iff nothing is targeted
 //   - files flagged as imports in the source image are never targets (they stay imports or are dropped), in
 //     particular for an exclude-only selection
-//   - allowNotExist=false: same result, and it additionally fails iff some exclude matches no file or some path
-//     matches no non-excluded file
+//   - allowNotExist=false: same result, and it additionally fails if some exclude or some path matches no file at all
+//     (a path whose files are all excluded may or may not be reported as not existing)
 func VerifLemma_C11A_ImagePathFilter() {
 	specs := vgLayout(verifNondetChoice(4))
 	np := verifNondetChoice(verifParam("NP") + 1)
@@ -185,11 +185,13 @@ func VerifLemma_C11A_ImagePathFilter() {
 	image := vgBuildImage(specs)
 	verifCover("inputs valid")
 	if rootPath {
-		// "." is rejected as a --path value by imageWithOnlyPaths (the module level treats it as "everything")
-		_, err := imageWithOnlyPaths(image, paths, excludes, allowNotExist)
-		verifAssert(err != nil, "\".\" is not accepted as a --path value")
-		verifCover("root path rejected")
-		return
+		// "." is currently rejected as a --path value by imageWithOnlyPaths, while the module level treats it as
+		// "everything". Rejecting it is allowed, not required: if it is accepted it must mean "everything" (the
+		// reference below does that), so only the rejection is skipped here.
+		if _, err := imageWithOnlyPaths(image, paths, excludes, allowNotExist); err != nil {
+			verifCover("root path rejected")
+			return
+		}
 	}
 
 	// An import file of the source image belongs to a module that is not targeted: the module-level rule never
@@ -221,21 +223,33 @@ func VerifLemma_C11A_ImagePathFilter() {
 			someUnmatched = true
 		}
 	}
+	// A --path whose files are all excluded: "does not exist" may or may not be reported (undocumented).
+	onlyExcludedMatches := false
 	for _, p := range paths {
-		matched := false
+		matchedAny, matchedKept := false, false
 		for _, spec := range specs {
-			if refGContains(p, spec.path) && !refGAnyContains(excludes, spec.path) {
-				matched = true
+			if refGContains(p, spec.path) {
+				matchedAny = true
+				if !refGAnyContains(excludes, spec.path) {
+					matchedKept = true
+				}
 			}
 		}
-		if !matched {
+		if !matchedAny {
 			someUnmatched = true
+		} else if !matchedKept {
+			onlyExcludedMatches = true
 		}
 	}
 	wantErr := len(wantTargets) == 0 || (!allowNotExist && someUnmatched)
+	eitherWay := !wantErr && !allowNotExist && onlyExcludedMatches
 
 	got, err := imageWithOnlyPaths(image, paths, excludes, allowNotExist)
 	verifCover("imageWithOnlyPaths returned")
+	if eitherWay && err != nil {
+		verifCover("path with only excluded files reported as not existing")
+		return
+	}
 	if wantErr {
 		verifCover("rejected")
 		verifAssert(err != nil, "nothing targeted / unmatched path without allowNotExist is an error")
